@@ -875,13 +875,18 @@ func (t *fnTrans) call(c *ast.CallExpr) string {
 		t.fd.usesExt = true
 		return fmt.Sprintf("(E.pemDecode %s)", t.expr(c.Args[0]))
 	case "errors.New", "github.com/pkg/errors.New":
-		if bl, ok := c.Args[0].(*ast.BasicLit); ok {
-			return fmt.Sprintf("(some %q : GoErr)", "errors.New:"+strings.Trim(bl.Value, "\"`"))
-		}
+		// a fresh error value: its message is not part of what is modelled (rewording it changes nothing)
+		return "(some \"errors.New\" : GoErr)"
 	case "fmt.Errorf", "github.com/pkg/errors.Errorf":
-		if bl, ok := c.Args[0].(*ast.BasicLit); ok {
-			return fmt.Sprintf("(some %q : GoErr)", "fmt.Errorf:"+strings.Trim(bl.Value, "\"`"))
+		if bl, ok := c.Args[0].(*ast.BasicLit); ok && strings.Contains(bl.Value, "%w") {
+			// wraps its error argument: errors.Is still matches what is wrapped
+			for _, a := range c.Args[1:] {
+				if isErrorType(t.typeOf(a)) {
+					return fmt.Sprintf("(goWrap %s)", t.rhs(a))
+				}
+			}
 		}
+		return "(some \"fmt.Errorf\" : GoErr)"
 	case "github.com/pkg/errors.Wrap", "github.com/pkg/errors.Wrapf":
 		return fmt.Sprintf("(goWrap %s)", t.rhs(c.Args[0]))
 	case "bytes.NewBuffer", "bytes.NewReader":
